@@ -14,7 +14,8 @@ class _composite_base(prophy_data_object):
 
     @classmethod
     def validate_copy_from(cls, rhs):
-        if not isinstance(rhs, cls):
+        # the value of an optional field is an instance of a per-field subclass of its message class
+        if not isinstance(rhs, cls.__bases__[0] if cls._OPTIONAL else cls):
             raise TypeError("Parameter to copy_from must be instance of same class.")
 
     def _copy_implementation(self, other):
